@@ -2976,6 +2976,24 @@ def _keyed_by_docutils_name(f: FunctionInfo, st: ast.AST) -> bool:
         for x in ast.walk(e):
             if isinstance(x, ast.Subscript) and isinstance(x.slice, ast.Constant) and x.slice.value == "names":
                 return True
+        if not isinstance(e, ast.Name):
+            # a key computed from a name (make_id(name), name.lower(), f"{name}", "x" + name) is keyed by that name;
+            # an attribute of some node (node["slug"]) is not
+            def sources(x) -> list:
+                if isinstance(x, ast.Name):
+                    return [x]
+                if isinstance(x, ast.Call):
+                    subs = list(x.args) + [k.value for k in x.keywords]
+                    if isinstance(x.func, ast.Attribute) and isinstance(x.func.value, ast.Name) and x.func.attr in ("lower", "strip", "casefold", "replace", "format"):
+                        subs.append(x.func.value)
+                    return [y for a in subs for y in sources(a)]
+                if isinstance(x, ast.JoinedStr):
+                    return [y for v in x.values if isinstance(v, ast.FormattedValue) for y in sources(v.value)]
+                if isinstance(x, ast.BinOp):
+                    return sources(x.left) + sources(x.right)
+                return []
+
+            return any(named(x, depth + 1) for x in sources(e))
         if isinstance(e, ast.Name):
             for n in f.local_nodes():
                 if isinstance(n, (ast.For, ast.comprehension)) and any(isinstance(a, ast.Attribute) and a.attr in ("nametypes", "nameids") for a in ast.walk(n.iter)):
@@ -3626,7 +3644,7 @@ def _start_kind(dk: "DocKinds", fi: FunctionInfo, e: ast.expr, depth: int = 0) -
             return _start_kind(dk, fi, e.args[0], depth + 1)
         if nm == "doc2path" and e.args:
             return _start_kind(dk, fi, e.args[0], depth + 1)
-        if nm == "get" and (dotted(e.func.value) or "").endswith("md_env"):
+        if nm in ("get", "pop") and (dotted(e.func.value) or "").endswith("md_env"):
             return {"MDENV"}
         return {"?"}
     if isinstance(e, ast.Attribute):
@@ -3639,6 +3657,8 @@ def _start_kind(dk: "DocKinds", fi: FunctionInfo, e: ast.expr, depth: int = 0) -
             return {"ROOT"}
         return {"?"}
     if isinstance(e, ast.Subscript):
+        if (dotted(e.value) or "").endswith("md_env"):
+            return {"MDENV"}
         return _start_kind(dk, fi, e.value, depth + 1)
     if isinstance(e, ast.Starred):
         return _start_kind(dk, fi, e.value, depth + 1)
@@ -3750,7 +3770,12 @@ def r10_rewrite_scope(corpus: Corpus, rep: Report, tier: str):
     # the directory of THAT document, not to a directory remembered in the md_env entry
     dk = DocKinds(corpus)
     for m in corpus.cls(SPHINX_R).methods.values():
-        reads_key = any(isinstance(c, ast.Call) and isinstance(c.func, ast.Attribute) and c.func.attr == "get" and (dotted(c.func.value) or "").endswith("md_env") and c.args and isinstance(c.args[0], ast.Constant) and c.args[0].value in keys for c in m.local_nodes())
+        reads_key = any(
+            (isinstance(c, ast.Call) and isinstance(c.func, ast.Attribute) and c.func.attr in ("get", "pop", "setdefault") and (dotted(c.func.value) or "").endswith("md_env") and c.args and isinstance(c.args[0], ast.Constant) and c.args[0].value in keys)
+            or (isinstance(c, ast.Subscript) and (dotted(c.value) or "").endswith("md_env") and isinstance(c.slice, ast.Constant) and c.slice.value in keys)
+            or (isinstance(c, ast.Compare) and len(c.ops) == 1 and isinstance(c.ops[0], (ast.In, ast.NotIn)) and isinstance(c.left, ast.Constant) and c.left.value in keys and (dotted(c.comparators[0]) or "").endswith("md_env"))
+            for c in m.local_nodes()
+        )
         if not reads_key:
             continue
         for c in [x for x in m.local_nodes() if isinstance(x, ast.Call) and (dotted(x.func) or "").split(".")[-1] == "relpath"]:
